@@ -185,12 +185,18 @@ func (d *DHCPv4) DecodeFromBytes(data []byte, df gopacket.DecodeFeedback) error 
 
 // Len returns the length of a DHCPv4 packet.
 func (d *DHCPv4) Len() uint16 {
-	n := uint16(240)
+	return uint16(d.length())
+}
+
+// length is the number of bytes SerializeTo writes: every option takes the
+// room of its Data, which is what the serializer advances by.
+func (d *DHCPv4) length() int {
+	n := 240
 	for _, o := range d.Options {
 		if o.Type == DHCPOptPad {
 			n++
 		} else {
-			n += uint16(o.Length) + 2
+			n += len(o.Data) + 2
 		}
 	}
 	n++ // for opt end
@@ -201,7 +207,15 @@ func (d *DHCPv4) Len() uint16 {
 // SerializationBuffer, implementing gopacket.SerializableLayer.
 // See the docs for gopacket.SerializableLayer for more info.
 func (d *DHCPv4) SerializeTo(b gopacket.SerializeBuffer, opts gopacket.SerializeOptions) error {
-	plen := int(d.Len())
+	if opts.FixLengths {
+		for i := range d.Options {
+			if len(d.Options[i].Data) > 255 {
+				return fmt.Errorf("DHCPv4 option %d data length %d too long", d.Options[i].Type, len(d.Options[i].Data))
+			}
+			d.Options[i].Length = uint8(len(d.Options[i].Data))
+		}
+	}
+	plen := d.length()
 
 	data, err := b.PrependBytes(plen)
 	if err != nil {
